@@ -502,7 +502,12 @@ def gen_fail(rng):
 
 def gen_corrupt(rng):
     base = rng.choice([gen_shell, gen_sync_read, gen_mixed])(rng)
-    base["envs"][0]["sim"]["corrupt"] = (rng.randrange(1, 12), rng.choice(["sum", "cmd"]))
+    kind = rng.choice(["sum", "cmd"])
+    if kind == "sum":
+        how = rng.choice([True, True, "zero", "zero", rng.getrandbits(32), 0xFFFFFFFF])
+    else:
+        how = rng.choice([True, 0x100, 0x80, 0x8000, 0x80000000, 0xFFFFFFFF, 1 << rng.randrange(32)])
+    base["envs"][0]["sim"]["corrupt"] = (rng.randrange(1, 12), kind, how)
     return base
 
 
